@@ -124,3 +124,15 @@ Proof.
   exec_norm. reflexivity.
 Qed.
 
+
+(** a list with a repeated element fails the assertion [len(list_) == len(set(list_))] *)
+Theorem slice_list_src_rejects_repeats : forall l n fuel, 1 <= n -> length (distinct l) <> length l ->
+  call fuel slice_list_src [VList l; VInt n] = ORaise ExAssert.
+Proof.
+  intros l n fuel Hn Hd. unfold call, slice_list_src. cbn [f_body f_params bind_params].
+  exec_norm. cbn [eval bind upd Nat.eqb cmp].
+  assert (E : (n <? 1) = false) by (apply Z.ltb_ge; lia). rewrite E. cbn [truthy].
+  exec_norm. cbn [step_simple eval bind upd Nat.eqb seq_items cmp value_eqb].
+  assert (E2 : (Z.of_nat (length l) =? Z.of_nat (length (distinct l))) = false) by (apply Z.eqb_neq; lia).
+  rewrite E2. cbn [truthy]. reflexivity.
+Qed.
